@@ -65,6 +65,9 @@ DOTTED_SINKS = [
     (re.compile(r"^(io|codecs|os)\.(open|fdopen)$"), "KOpen"),
     (re.compile(r"^importlib\..*$"), "KImport"),
     (re.compile(r"^(sympy|sympy\.parsing\.sympy_parser)\.(parse_expr|sympify|S)$"), "KSympy"),
+    # every other sympy entry point sympifies -- i.e. parses and EVALUATES -- a str argument
+    # (nsimplify, simplify, expand, N, ...); the constructors below parse numerals only
+    (re.compile(r"^sympy\.(?!Rational$|Integer$|Float$|Symbol$|symbols$|Basic$|Expr$|core\.|oo$|pi$|E$|I$|nan$|zoo$)[A-Za-z_][A-Za-z_0-9.]*$"), "KSympy"),
 ]
 TRIGGER = re.compile(
     r"(?<![A-Za-z0-9_])(print|exec|eval|compile|input|exit|quit|open|system|popen|Popen|urlopen|"
